@@ -97,7 +97,7 @@ func verifyPackedAttestationStatementCertificate(
 	// value of this extension matches the aaguid in authenticatorData.
 	aaguid, err := getCertificateAAGUID(certificate)
 	if err == nil {
-		if aaguid.Equals(authenticatorData.AttestedCredentialData.AAGUID) {
+		if !aaguid.Equals(authenticatorData.AttestedCredentialData.AAGUID) {
 			return fmt.Errorf("%w: invalid AAGUID", ErrInvalidAttestationStatement)
 		}
 	} else if errors.Is(err, errMissingAAGUID) { //nolint:revive
